@@ -195,6 +195,24 @@ mutual
     | t, x :: xs => chunksTy t x ++ chunksElems t xs
 end
 
+/-! ### "a greedy array whose tail does not end on the enclosing message's alignment
+    boundary" is the documented exception of the round-trip guarantee: trailing
+    padding is indistinguishable from elements.  `galTy t v` says that no padding
+    follows the greedy tail of `v` (vacuously true without a greedy tail). -/
+mutual
+  def galTy : Ty → Val → Bool
+    | .struct _ ms, .struct vs =>
+      let body := chunksMs ms vs ms vs 0 false
+      (!(unlMs ms) || padTo (clen body) (alignMs ms) == 0) && galMs ms vs
+    | _, _ => true
+  /-- only the last member can hold the greedy tail -/
+  def galMs : List Member → List Val → Bool
+    | [.mk _ t .plain], [v] => galTy t v
+    | [_], [_] => true
+    | _ :: r, _ :: vs => galMs r vs
+    | _, _ => true
+end
+
 /-- the canonical encoding of `v : t` in byte order `e` -/
 def enc (t : Ty) (v : Val) (e : Endian) : Bytes := render e (chunksTy t v)
 
